@@ -138,3 +138,131 @@ async def _scenario():
             di._wire_director = old_wire
             os.chdir(old_cwd)
     return out
+
+
+async def validate_loop_system(limit=40):
+    """Two real serve() runs on the same .stepup/graph.db (the user runs `stepup` twice).
+
+    Build 1: plan.py declares the static files f01.txt, f02.txt, g_src.txt and the steps g (out g.txt),
+    d (inp f02.txt, g.txt) and c (inp f01.txt, out o.txt).  c amends f02.txt (accepted).  While c runs
+    the user deletes f02.txt; d is dispatched, its pre-run check finds the input vanished: f02.txt is
+    recorded MISSING, d FAILS, the scheduler drains.  c finishes: SUCCEEDED, its hash does not list
+    f02.txt (not CONFIRMED any more) but the amended edge stays.
+    Build 2: the user deleted o.txt.  c is PENDING with its stored hash and a dynamic input that is
+    MISSING: VALIDATE_DYNAMIC, "digest unchanged", PENDING, VALIDATE_DYNAMIC, ...  The run is cut
+    after `limit` validate jobs.
+    """
+    import stepup.core.director as di
+    import stepup.core.executor as ex
+    from stepup.core.constants import GRAPH_DB
+    from stepup.core.director import ServeConfig, serve
+    from stepup.core.enums import Need
+    from stepup.core.executor import Executor
+    from stepup.core.outcome import ChildOutcome
+    from stepup.core.reporter import ReporterClient
+    from stepup.core.rpc import BaseAsyncRPCClient
+    from stepup.core.sqlite3 import DBSession
+
+    events, handler, gates = [], {}, {}
+
+    class Rec(BaseAsyncRPCClient):
+        async def __call__(self, name, /, *args, **kwargs):
+            if name == "report" and args and args[0] in ("START", "SUCCESS", "FAIL", "DEFERRED", "SKIP", "ERROR"):
+                events.append([args[0], str(args[1])])
+            return None
+
+    orig_wire = di._wire_director
+
+    async def wire(**kw):
+        h = await orig_wire(**kw)
+        handler["h"] = h
+        return h
+
+    D = Need.DEFAULT.value
+
+    async def state_of(label):
+        h = handler["h"]
+        async with h.db:
+            row = h.db.execute("SELECT state FROM step JOIN node ON node.i = step.node WHERE node.label = ?",
+                               (label,)).fetchone()
+        return row and row[0]
+
+    async def fake_launch(command, *, shell, env, cwd, mp_ctx, run):
+        h = handler["h"]
+        j = run.job_i
+        if command == "./plan.py":
+            await h.declare_static(j, [], ["f01.txt", "f02.txt", "g_src.txt"], [])
+            await h.define_step(j, "g", ["g_src.txt"], [], ["g.txt"], [], ".", D, {})
+            await h.define_step(j, "d", ["f02.txt", "g.txt"], [], ["d.txt"], [], ".", D, {})
+            await h.define_step(j, "c", ["f01.txt"], [], ["o.txt"], [], ".", D, {})
+        elif command == "g":
+            await gates["c_amended"].wait()
+            Path("f02.txt").remove()          # the user deletes a static file while the build runs
+            Path("g.txt").write_text("g")
+        elif command == "d":
+            Path("d.txt").write_text("d")
+        elif command == "c":
+            carry = await h.amend_step(j, ["f02.txt"], set(), [], [])
+            events.append(["amend-carry-on", str(carry)])
+            gates["c_amended"].set()
+            while await state_of("d") != 24:
+                await asyncio.sleep(0)
+            Path("o.txt").write_text("o")
+        return ChildOutcome(0, "", "")
+
+    nval = [0]
+    orig_val = Executor.validate_dynamic_job
+
+    class Loop(Exception):
+        pass
+
+    async def val(self, job_i, step, *a):
+        nval[0] += 1
+        if nval[0] > limit:
+            raise Loop()
+        return await orig_val(self, job_i, step, *a)
+
+    old_cwd = os.getcwd()
+    old_launch = ex.launch_command
+    out = {}
+    with tempfile.TemporaryDirectory(prefix="verif-c03loop-") as d:
+        try:
+            os.chdir(d)
+            ex.launch_command = fake_launch
+            di._wire_director = wire
+            Executor.validate_dynamic_job = val
+            gates["c_amended"] = asyncio.Event()
+            Path("plan.py").write_text("#!/usr/bin/env python3\n")
+            os.chmod("plan.py", 0o755)
+            for f in ("f01.txt", "f02.txt", "g_src.txt"):
+                Path(f).write_text(f)
+            Path(".stepup").makedirs_p()
+            for b in (1, 2):
+                if b == 2:
+                    Path("o.txt").remove()     # the user deletes c's output, then builds again
+                events.append(["BUILD", str(b)])
+                try:
+                    with DBSession.open(GRAPH_DB) as db:
+                        res = await asyncio.wait_for(
+                            serve(ServeConfig(njob=4, use_duration=False), director_socket_path=Path(".stepup/sock"),
+                                  reporter=ReporterClient(Rec()), db=db, handle_signals=False), 40)
+                    out["build1_rc" if b == 1 else "build2"] = res.returncode.value
+                except asyncio.TimeoutError:
+                    out["build1_rc" if b == 1 else "build2"] = f"TIMEOUT after {nval[0]} validate jobs"
+                except BaseException as e:  # noqa: BLE001 -- job_loop wraps the Loop marker in a RuntimeError
+                    if nval[0] > limit:
+                        out["build2"] = f"LOOP: more than {limit} consecutive VALIDATE_DYNAMIC jobs for step c, cut by the harness"
+                    else:
+                        out["build1_rc" if b == 1 else "build2"] = f"EXC {type(e).__name__}: {e}"
+                con = sqlite3.connect(".stepup/graph.db")
+                out[f"states{b}"] = dict(con.execute("SELECT label, state FROM node JOIN step ON node.i = step.node").fetchall())
+                out[f"files{b}"] = dict(con.execute("SELECT label, state FROM node JOIN file ON node.i = file.node").fetchall())
+                con.close()
+        finally:
+            ex.launch_command = old_launch
+            di._wire_director = orig_wire
+            Executor.validate_dynamic_job = orig_val
+            os.chdir(old_cwd)
+    out["events"] = events
+    out["nvalidate"] = nval[0]
+    return out
